@@ -99,19 +99,29 @@ def _models(eng, extra, timeout_ms=1500):
                 s.add(v >= -bound, v <= bound)
             r = s.check(*extra)
             if r == z3.sat:
+                eng.last_model_dyadic = True
                 yield eng.extract_model(s.model())
         finally:
             s.pop()
             s.set("timeout", eng_timeout(eng))
     r = eng.check(*extra)
+    eng.last_model_dyadic = False
     if r == z3.sat:
         yield eng.extract_model(eng.solver.model())
     elif r == z3.unknown:
         eng.model_unknown = True
 
 
-def _dyadic_model(eng, extra, timeout_ms=4000):
+def _dyadic_model(eng, extra, timeout_ms=4000, float_safe_only=False):
+    """first model candidate; with float_safe_only only the dyadic, bounded candidates (whose conversion to floats
+    is exact) are accepted"""
+    n = 0
     for m in _models(eng, extra, timeout_ms):
+        n += 1
+        if float_safe_only and n > 2:
+            return None
+        if float_safe_only and not getattr(eng, "last_model_dyadic", False):
+            return None
         return m
     return None
 
@@ -156,6 +166,7 @@ def explore(case, roots=None, max_paths=10**9, deadline=None, timeout_ms=20000, 
                ob_queries=0, discharged=0, trivially_true=0, labels={}, violations=[], known_hits=[], spurious=[],
                tags={}, xval_ok=0, xval_fail=[], samples=[], exceptions={}, forks=0)
     xval_done = 0
+    xval_attempts = 0
     known_replayed = {}
     while work:
         if res["paths"] >= max_paths or (deadline is not None and time.time() > deadline):
@@ -305,9 +316,13 @@ def explore(case, roots=None, max_paths=10**9, deadline=None, timeout_ms=20000, 
             else:
                 res["violations"].append(rec)
         # path-model cross validation of the encoding (and reachability twin) --------
-        if not path_violated and exc is None and xval_done < xval:
+        if not path_violated and exc is None and xval_done < xval and xval_attempts < xval + 2:
             xval_done += 1
-            model = _dyadic_model(eng, [])
+            xval_attempts += 1
+            model = _dyadic_model(eng, [], float_safe_only=True)
+            if model is None:
+                res["xval_skipped_no_float_safe_model"] = res.get("xval_skipped_no_float_safe_model", 0) + 1
+                xval_done -= 1
             if model is not None:
                 rep = concrete_run(case, model)
                 okx = rep["status"] == "ok" and json.dumps(rep["tag"], default=str) == tkey and all(rep["verdicts"].values())
@@ -338,7 +353,7 @@ def explore(case, roots=None, max_paths=10**9, deadline=None, timeout_ms=20000, 
 def merge(a, b):
     """merge result b into a"""
     for k in ("paths", "feasible", "infeasible", "queries", "solver_s", "unknown", "aborted", "ob_queries", "discharged",
-              "trivially_true", "xval_ok", "forks", "wall_s", "xval_uf_skipped", "known_unreplayed"):
+              "trivially_true", "xval_ok", "forks", "wall_s", "xval_uf_skipped", "known_unreplayed", "xval_skipped_no_float_safe_model"):
         a[k] = a.get(k, 0) + b.get(k, 0)
     for k in ("abort_reasons", "tags", "exceptions"):
         d = a.setdefault(k, {})
